@@ -16,6 +16,8 @@ ENGINES = {
     "C22": "e4_exc",
     "C44": "e4_exc",
     "C35": "e5_refs",
+    "C26": "e7_ns",
+    "C27": "e7_ns",
 }
 
 
